@@ -24,7 +24,8 @@ CASE_TIMEOUT = 120
 BATCH_SIZE = {'quick': 4, 'thorough': 12}
 REQUIRED_COUNTERS = ['outputs_scanned', 'strings_scanned',
                      'failing_runs_scanned', 'successful_runs_scanned',
-                     'log_lines_with_sanitised_paths']
+                     'log_lines_with_sanitised_paths',
+                     'failing_runs_without_log_file_scanned']
 RULE = ('case = mapping run with cloud_safe=True inside a directory whose '
         'name carries a canary token and punctuation ( ( ) [ ] , = \' + @ ), '
         'either successful or failing on: missing / corrupt / non-HDF5 '
@@ -77,6 +78,9 @@ def gen_cases(tier, seed):
         c['n_processors'] = 4
         c['marker_class'] = 'complete'
         c['spelling'] = bool(i % 3 == 2)
+        # a third of the runs (every class in turn) is given no separate log
+        # file: the log then only exists inside the JSON / HDF5 outputs
+        c['no_log_file'] = bool((i + i // len(CLASSES)) % 3 == 1)
         c.pop('flatten', None)
         cases.append(c)
     return cases
@@ -243,6 +247,8 @@ def run_case(spec, work):
         cfg['query_markers']['serialized_lookup'] = respell(
             cfg['query_markers']['serialized_lookup'], 1)
         counters['runs_with_unnormalised_path_spellings'] = 1
+    if spec.get('no_log_file'):
+        cfg['log_path'] = None
     r = mapworld.run_world(w, trace=False, plan=plan, config=cfg)
     failed = r['exception'] is not None
     if klass == 'success' and failed:
@@ -287,8 +293,8 @@ def run_case(spec, work):
         except Exception as exc:
             viol.append({'sig': 'C20:hdf5-metadata-unreadable',
                          'msg': repr(exc)})
-    lp = pathlib.Path(cfg['log_path'])
-    if lp.exists():
+    lp = pathlib.Path(cfg['log_path']) if cfg['log_path'] else None
+    if lp is not None and lp.exists():
         scan(lp.read_text().splitlines(), tokens, 'log-file', viol,
              counters)
         scanned += 1
@@ -296,6 +302,8 @@ def run_case(spec, work):
     if scanned:
         if failed:
             counters['failing_runs_scanned'] = 1
+            if spec.get('no_log_file'):
+                counters['failing_runs_without_log_file_scanned'] = 1
         else:
             counters['successful_runs_scanned'] = 1
         counters['class_' + klass] = 1
